@@ -3,6 +3,7 @@ import AvroModel.Drv.C17
 import AvroModel.Drv.Enc
 import AvroModel.Drv.CodecDrv
 import AvroModel.Drv.Time
+import AvroModel.Drv.Bank
 open Avro Avro.Sexp Avro.Drv
 
 def dispatch (prop : String) (op : String) (args : List Sexp) : Verdict :=
@@ -14,6 +15,7 @@ def dispatch (prop : String) (op : String) (args : List Sexp) : Verdict :=
   | "C04" => c04 op args
   | "C18" => c18 op args
   | "C19" => c19 op args
+  | "C10" => c10 op args
   | _ => .bad s!"unknown property {prop}"
 
 partial def loop (prop : String) (h : IO.FS.Stream) (out : IO.FS.Stream) : IO Unit := do
